@@ -6,12 +6,17 @@ use serde_json::Value;
 pub mod c01;
 pub mod c02;
 pub mod c03;
+pub mod c04;
 pub mod c05;
 pub mod c06;
 pub mod c07;
+pub mod c08;
+pub mod c09;
+pub mod c10;
 pub mod c11;
 pub mod c12;
 pub mod c13;
+pub mod c14;
 pub mod common;
 
 pub struct PropDef {
@@ -28,10 +33,12 @@ pub struct PropDef {
     /// does the property claim termination without panic/abort (then a confirmed abort or
     /// hang of the worker is a violation; otherwise it is reported as undecided)
     pub totality: bool,
+    /// verdict over the merged per-worker `extra` records (aggregate properties)
+    pub aggregate: Option<fn(&std::collections::BTreeMap<String, Vec<Value>>, &crate::engine::RunCfg) -> Vec<(Failure, Value)>>,
 }
 
 pub fn all() -> Vec<&'static PropDef> {
-    vec![&c01::DEF, &c02::DEF, &c03::DEF, &c05::DEF, &c06::DEF, &c07::DEF, &c11::DEF, &c12::DEF, &c13::DEF]
+    vec![&c01::DEF, &c02::DEF, &c03::DEF, &c04::DEF, &c05::DEF, &c06::DEF, &c07::DEF, &c08::DEF, &c09::DEF, &c10::DEF, &c11::DEF, &c12::DEF, &c13::DEF, &c14::DEF]
 }
 
 pub fn find(id: &str) -> Option<&'static PropDef> {
